@@ -2,20 +2,30 @@
 C11 — a byte stream is split into exactly the messages it contains.
 
 Theorems: lean/BufrModel/Props/C11.lean (over an abstract per-offset decoder with the frame property;
-the section model has it: C12_ofSections_frame).
+the section model has it: C12_ofSections_frame; the filter is an arbitrary predicate).
 Tie: streams of 0..8 generated messages (editions 2-4, compressed or not, 1-3 subsets, optional section 2,
 character payloads and local bits carrying `BUFR` / `7777` byte aligned) and corpus files, joined by
 separators {empty, GTS-like headings, noise without the signature, `BUF`, `BU`, `B`, noise ending in a
 partial signature}, scanned by `generate_bufr_message` and by the model's `scan` (section model + coder
 model on the same tables) in both modes, with and without a filter over %data_category / %n_subsets /
 %edition / %is_compressed (true for all / some / none of the messages).
+Systematic product (`run_grid`): mode {full, info-only} x continue-on-error {off, on} x filter {none, and EVERY
+pattern of kept / rejected messages of streams of 1..5 messages: true for all, for some, for none} x the
+separator after each message from {empty, 1, 2, 3, 4, 5 bytes, `BUF`, `BU`, `B`, `7777`, CR CR LF, GTS heading,
+noise}, rotated so that every (kept/rejected, separator, kept/rejected next) transition occurs in every mode.
+General filters (`run_filters`, harness/filters.py): expressions over EVERY metadata parameter name of every
+section layout, bare and section-qualified, compared (== != < <= > >=, `not`, truthiness, `in`, `is None`,
+containment, two queries, and / or combinations) with values that occur in the stream including 0 / False /
+'' on messages whose free section parameters are 0 as well as non-zero.
 Oracle (on the implementation alone): the yielded `serialized_bytes` are exactly the known pieces for
-which the filter holds, in order; `command_split` writes exactly those pieces and their concatenation is
-the concatenation of the messages; `info -c` counts them.
+which the filter holds (the expression evaluated directly, with Python operators, on the parameter values
+found by a plain scan of the sections of a fresh full decode of each piece), in order; `command_split`
+writes exactly those pieces and their concatenation is the concatenation of the messages; `info -c` counts them.
 """
 import argparse
 import contextlib
 import io
+import itertools
 import json
 import os
 import shutil
@@ -26,6 +36,7 @@ import tempfile
 from harness import core, tables_io
 from harness import coderprops as P
 from harness import streams as S
+from harness import filters as F
 
 PROP = 'C11'
 
@@ -34,12 +45,22 @@ META = dict(
     text='Kernel-checked theorems about the Lean model of generate_bufr_message (signature search, decode at the offset, '
          'advance by decoded / declared length, filter on the metadata-only decode, unmatched branch, error branch) for ALL '
          'streams sep0 m1 sep1 .. mk sepk of valid messages and signature-free separators, any per-offset decoder with the '
-         'frame property (proved for the section model), both modes, with and without filter: exactly the messages, at their '
-         'offsets, with their bytes; inner signatures ignored; concatenation of the pieces = the messages; fuel never runs out. '
-         'Plus model-vs-implementation correspondence and the oracle on generated and corpus streams, command_split and the CLI.',
+         'frame property (proved for the section model), both modes, with and without filter (an arbitrary predicate): exactly '
+         'the messages, at their offsets, with their bytes; inner signatures ignored; concatenation of the pieces = the messages; '
+         'a rejected message advances by exactly its length when only metadata is read and never beyond it in either mode, and '
+         'the message after it is found for any separator including the empty one; fuel never runs out. '
+         'Plus model-vs-implementation correspondence and the oracle on generated and corpus streams, command_split and the CLI: '
+         'random streams; the systematic product mode x continue-on-error x every kept/rejected pattern of up to 5 messages x '
+         'separator after each message (empty, 1-5 bytes, BUF, BU, B, 7777, CR CR LF, GTS heading, noise); filter expressions over '
+         'every metadata parameter name of every section layout, bare and section-qualified, compared with values occurring in the '
+         'stream including 0 / False / empty (== != < <= > >= not in is-None containment, and/or combinations), expected selection '
+         'from the expression evaluated directly on the parameter values of a fresh full decode of each piece.',
     technique='Lean 4 theorems (induction over the list of pieces, no-border lemma for BUFR) + checked model/implementation correspondence',
-    note='The filter expression language (Python eval) is abstracted to a predicate on the metadata-only decoding; the '
-         'table-definition side effect of category-11 messages is C20\'s and is not exercised here. Quirk mirrored and documented: '
+    note='In the theorems the filter is an arbitrary predicate on the metadata-only decoding; the checked correspondence evaluates a '
+         'modelled fragment of Python expressions (Lang/FilterExpr.lean: comparison, not, and/or, in, is None over None/int/bool/str/'
+         'bytes/list). The filter sees the metadata-only decode: template_data and section 5 (stop_signature) are not in it '
+         '(%stop_signature is None there); such expressions are compared model-vs-implementation only. The table-definition side '
+         'effect of category-11 messages is C20\'s and is not exercised here. Quirk mirrored and documented: '
          'info-only scanning of a message whose declared total length is 0 never terminates (model outcome `loops`).',
 )
 
@@ -62,7 +83,14 @@ def build_stream(rng, pool, kmax=8):
 
 
 class Case(object):
-    __slots__ = ('s', 'sel', 'offs', 'kinds', 'info_only', 'cont', 'fexpr', 'fmodel', 'keep', 'idx')
+    """keep[i]: True / False (the filter holds / does not hold for message i), F.RAISES (evaluating it is an error:
+    a non-library exception that ends the scan there) or F.OUTSIDE (the expression refers to something the
+    metadata-only decode does not have: no oracle, model and implementation are still compared)"""
+    __slots__ = ('s', 'sel', 'offs', 'kinds', 'info_only', 'cont', 'fexpr', 'fmodel', 'ftree', 'keep', 'idx', 'part')
+
+    def __init__(self):
+        self.fexpr = self.fmodel = self.ftree = None
+        self.part = 'random'
 
 
 def make_case(rng, pool, idx, kmax=8):
@@ -80,39 +108,57 @@ def make_case(rng, pool, idx, kmax=8):
     return c
 
 
+def has_oracle(c):
+    return F.OUTSIDE not in c.keep
+
+
 def expected(c):
-    return [m.b for m, k in zip(c.sel, c.keep) if k]
+    """-> (pieces the scan has to yield, outcome)"""
+    out = []
+    for m, k in zip(c.sel, c.keep):
+        if k == F.RAISES:
+            return out, 'err:other'
+        if k is True:
+            out.append(m.b)
+    return out, 'done'
+
+
+def req_of(c):
+    return S.scan_req(c.s, c.info_only, c.cont, c.fmodel, fexpr=c.ftree)
 
 
 def evaluate(c, resp):
     """-> description of what is wrong, or None"""
     items, out = S.impl_scan(c.s, info_only=c.info_only, continue_on_error=c.cont, filter_expr=c.fexpr,
                              limit=len(c.sel) + 3)
-    exp = expected(c)
-    if out != 'done':
-        return 'oracle: the scan of a stream of valid messages ended with %s after %d of %d messages' % (out, len(items), len(exp))
-    if items != exp:
-        k = next((i for i, (a, b) in enumerate(zip(items, exp)) if a != b), min(len(items), len(exp)))
-        return 'oracle: yielded pieces differ from the messages of the stream at index %d (%d yielded, %d expected; lengths %s vs %s)' % (
-            k, len(items), len(exp), [len(x) for x in items[:10]], [len(x) for x in exp[:10]])
+    if has_oracle(c):
+        exp, eout = expected(c)
+        if out != eout:
+            return 'oracle: the scan of a stream of valid messages ended with %s after %d of %d messages (expected: %s)' % (
+                out, len(items), len(exp), eout)
+        if items != exp:
+            k = next((i for i, (a, b) in enumerate(zip(items, exp)) if a != b), min(len(items), len(exp)))
+            return 'oracle: yielded pieces differ from the messages of the stream at index %d (%d yielded, %d expected; lengths %s vs %s)' % (
+                k, len(items), len(exp), [len(x) for x in items[:10]], [len(x) for x in exp[:10]])
     mi = S.model_items(c.s, resp)
     if resp['outcome'] != out or mi != items:
         return 'correspondence: model scan gives %s %s, implementation %s %s' % (
             resp['outcome'], [(o, n) for o, n, _ in resp['items']][:10], out, [len(x) for x in items[:10]])
-    exp_offs = [o for o, k in zip(c.offs, c.keep) if k]
-    if [o for o, _, _ in resp['items']] != exp_offs:
-        return 'model offsets %s differ from the known offsets %s' % ([o for o, _, _ in resp['items']], exp_offs)
+    if has_oracle(c) and out == 'done':
+        exp_offs = [o for o, k in zip(c.offs, c.keep) if k is True]
+        if [o for o, _, _ in resp['items']] != exp_offs:
+            return 'model offsets %s differ from the known offsets %s' % ([o for o, _, _ in resp['items']], exp_offs)
     return None
 
 
 def replay_obj(c, why):
     return {'stream_hex': c.s.hex(), 'pieces': [[o, len(m.b)] for o, m in zip(c.offs, c.sel)], 'keep': c.keep,
             'info_only': c.info_only, 'continue_on_error': c.cont, 'filter_expr': c.fexpr, 'filter_model': c.fmodel,
-            'case_index': c.idx, 'why': why}
+            'filter_tree': c.ftree, 'separators': c.kinds, 'part': c.part, 'case_index': c.idx, 'why': why}
 
 
 def signature(c, why):
-    return {'kind': why.split(':')[0], 'info_only': c.info_only, 'filter': c.fexpr is not None}
+    return {'kind': why.split(':')[0], 'info_only': c.info_only, 'filter': c.fexpr is not None, 'part': c.part}
 
 
 def shrink(drv, treq, c, why):
@@ -127,6 +173,7 @@ def shrink(drv, treq, c, why):
             budget -= 1
             c2 = Case()
             c2.idx, c2.info_only, c2.cont, c2.fexpr, c2.fmodel = best.idx, best.info_only, best.cont, best.fexpr, best.fmodel
+            c2.ftree, c2.part = best.ftree, best.part
             start = best.offs[k]
             end = best.offs[k] + len(best.sel[k].b)
             c2.s = best.s[:start] + best.s[end:]
@@ -143,7 +190,7 @@ def shrink(drv, treq, c, why):
                 pos = o + len(m.b)
             if not ok or S.SIG in c2.s[pos:]:
                 continue
-            r = drv.batch([treq, S.scan_req(c2.s, c2.info_only, c2.cont, c2.fmodel)])[1]
+            r = drv.batch([treq, req_of(c2)])[1]
             w2 = evaluate(c2, r)
             if w2 and w2.split(':')[0] == kind:
                 best, bwhy = c2, w2
@@ -157,11 +204,64 @@ def classify_filter(c):
         return 'no-filter'
     if not c.sel:
         return 'filter-empty-stream'
+    if F.OUTSIDE in c.keep:
+        return 'filter-outside-metadata-only-decode'
+    if F.RAISES in c.keep:
+        return 'filter-raises'
     if all(c.keep):
         return 'filter-all'
     if not any(c.keep):
         return 'filter-none'
     return 'filter-some'
+
+
+def account(ctx, drv, treq, c, r):
+    """bookkeeping of one case + comparison (oracle, correspondence); a failing case is shrunk once per shape"""
+    inner = any(m.inner for m in c.sel)
+    partial = any(k in ('BUF', 'BU', 'B', 'noise+BUF') for k in c.kinds)
+    ctx.case({'stream': c.s.hex()[:64], 'n': len(c.sel), 'info_only': c.info_only, 'filter': c.fexpr,
+              'len': len(c.s)},
+             nontrivial=len(c.sel) >= 2 and (inner or partial or c.fexpr is not None),
+             sample=len(ctx.samples) < 4 and len(c.sel) >= 2)
+    ctx.traces += 1
+    ctx.count('part:' + c.part)
+    ctx.count('messages-%d' % len(c.sel))
+    ctx.count('info-only' if c.info_only else 'full')
+    ctx.count('continue-on-error' if c.cont else 'raise-on-error')
+    ctx.count(classify_filter(c))
+    if inner:
+        ctx.count('stream-with-inner-signature')
+    for k in set(c.kinds):
+        ctx.count('sep:' + k)
+    for m in c.sel:
+        ctx.count('msg:edition-%d' % m.edition)
+        ctx.count('msg:compressed' if m.comp else 'msg:uncompressed')
+        if m.sec2 is not None:
+            ctx.count('msg:section2')
+    # the metadata-only span ends with section 4 (what an unmatched message advances by in full mode)
+    if has_oracle(c) and F.RAISES not in c.keep:
+        for (o, n_, span), m in zip(r['items'], [m for m, k in zip(c.sel, c.keep) if k is True]):
+            if c.info_only and span != len(m.b) - 4:
+                ctx.violation('model: metadata-only span %d of a %d-byte message is not length-4' % (span, len(m.b)),
+                              replay_obj(c, 'span'), signature={'kind': 'span'})
+    why = evaluate(c, r)
+    if why:
+        sig = signature(c, why)
+        key = core.chash(sig)
+        if key in ctx._seen_viol:          # already reported in this shape: count it, do not shrink again
+            ctx.violation(why, replay_obj(c, why), signature=sig)
+        else:
+            small, w2 = shrink(drv, treq, c, why)
+            ctx.violation(w2, replay_obj(small, w2), signature=signature(small, w2))
+            ctx._seen_viol.add(key)
+
+
+def run_cases(ctx, drv, treq, cases, chunk=300):
+    for i in range(0, len(cases), chunk):
+        part = cases[i:i + chunk]
+        res = drv.batch([treq] + [req_of(c) for c in part])[1:]
+        for c, r in zip(part, res):
+            account(ctx, drv, treq, c, r)
 
 
 def run_generated(ctx, drv, treq, count, rng):
@@ -174,42 +274,176 @@ def run_generated(ctx, drv, treq, count, rng):
             raise core.MachineryError('message generation failed')
         cases = [make_case(rng, pool, done + i) for i in range(n)]
         done += n
-        res = drv.batch([treq] + [S.scan_req(c.s, c.info_only, c.cont, c.fmodel) for c in cases])[1:]
-        for c, r in zip(cases, res):
-            inner = any(m.inner for m in c.sel)
-            partial = any(k in ('BUF', 'BU', 'B', 'noise+BUF') for k in c.kinds)
-            ctx.case({'stream': c.s.hex()[:64], 'n': len(c.sel), 'info_only': c.info_only, 'filter': c.fexpr,
-                      'len': len(c.s)},
-                     nontrivial=len(c.sel) >= 2 and (inner or partial or c.fexpr is not None),
-                     sample=len(ctx.samples) < 4 and len(c.sel) >= 2)
-            ctx.traces += 1
-            ctx.count('messages-%d' % len(c.sel))
-            ctx.count('info-only' if c.info_only else 'full')
-            ctx.count(classify_filter(c))
-            if inner:
-                ctx.count('stream-with-inner-signature')
-            for k in set(c.kinds):
-                ctx.count('sep:' + k)
-            for m in c.sel:
-                ctx.count('msg:edition-%d' % m.edition)
-                ctx.count('msg:compressed' if m.comp else 'msg:uncompressed')
-                if m.sec2 is not None:
-                    ctx.count('msg:section2')
-            # the metadata-only span ends with section 4 (what an unmatched message advances by in full mode)
-            for (o, n_, span), m in zip(r['items'], [m for m, k in zip(c.sel, c.keep) if k]):
-                if c.info_only and span != len(m.b) - 4:
-                    ctx.violation('model: metadata-only span %d of a %d-byte message is not length-4' % (span, len(m.b)),
-                                  replay_obj(c, 'span'), signature={'kind': 'span'})
-            why = evaluate(c, r)
-            if why:
-                sig = signature(c, why)
-                key = core.chash(sig)
-                if key in ctx._seen_viol:          # already reported in this shape: count it, do not shrink again
-                    ctx.violation(why, replay_obj(c, why), signature=sig)
-                else:
-                    small, w2 = shrink(drv, treq, c, why)
-                    ctx.violation(w2, replay_obj(small, w2), signature=signature(small, w2))
-                    ctx._seen_viol.add(key)
+        run_cases(ctx, drv, treq, cases)
+
+
+# ---------------------------------------------------------------------------------------------
+# systematic product: mode x continue-on-error x pattern of kept / rejected messages x separator after each message
+SEPS = ['empty', 'n1', 'n2', 'n3', 'n4', 'n5', 'BUF', 'BU', 'B', '7777', 'crcrlf', 'gts', 'noise']
+
+
+def sep_bytes(rng, kind):
+    if kind == 'empty':
+        return b''
+    if kind[0] == 'n' and kind[1:].isdigit():
+        return S.noise(rng, int(kind[1:]))
+    if kind in ('BUF', 'BU', 'B', '7777'):
+        return kind.encode()
+    if kind == 'crcrlf':
+        return b'\r\r\n'
+    if kind == 'gts':
+        return rng.choice(S.GTS)
+    if kind == 'noise':
+        return S.noise(rng, rng.randint(6, 40))
+    raise ValueError(kind)
+
+
+def assemble(rng, c, msgs_, kinds):
+    """kinds[0]: the leading separator, kinds[i + 1]: the separator after message i"""
+    s = sep_bytes(rng, kinds[0])
+    offs = []
+    for m, k in zip(msgs_, kinds[1:]):
+        offs.append(len(s))
+        s += m.b + sep_bytes(rng, k)
+    c.s, c.sel, c.offs, c.kinds = s, list(msgs_), offs, list(kinds)
+
+
+class MetaPool(object):
+    """messages whose free section parameters are 0 / False / all-zero as well as non-zero, with the parameter
+    values of each (fresh full decode, plain scan of the sections)"""
+
+    def __init__(self, drv, rng, count, level=1, max_subsets=2):
+        self.msgs = S.gen_messages(drv, rng, count, level=level, max_subsets=max_subsets, tweak=F.tweak)
+        if len(self.msgs) < 10:
+            raise core.MachineryError('message generation failed')
+        self.metas = [F.Meta(m.b) for m in self.msgs]
+        self.atoms = F.atoms()
+
+    def filter_with_both(self, rng, need_true, need_false, tries=40):
+        """a general filter that is true for some and false for some messages of the pool (as needed), and the
+        indices of those; messages for which it raises or that it cannot be evaluated on are left out"""
+        for _ in range(tries):
+            f = F.make(rng, self.metas, self.atoms)
+            st = [f.status(m) for m in self.metas]
+            t = [i for i, x in enumerate(st) if x is True]
+            fa = [i for i, x in enumerate(st) if x is False]
+            if (t or not need_true) and (fa or not need_false):
+                return f, t, fa
+        raise core.MachineryError('no filter found that separates the message pool')
+
+
+def grid_plan(rotations, rotations_nofilter):
+    """[(info_only, cont, pattern or None, separator kinds)]: every pattern of kept (True) / rejected (False)
+    messages of 1..5 messages, `rotations` assignments of separators each; pattern None = no filter (0..5 messages)"""
+    out = []
+    n = len(SEPS)
+    for info in (False, True):
+        for cont in (False, True):
+            pi = 0
+            for k in range(0, 6):
+                for j in range(rotations_nofilter):
+                    off = (pi * rotations_nofilter + j) % n
+                    out.append((info, cont, None, k, [SEPS[(3 * off + 1) % n]] + [SEPS[(off + 5 * i) % n] for i in range(k)]))
+                pi += 1
+            pi = 0
+            for k in range(1, 6):
+                for pat in itertools.product([True, False], repeat=k):
+                    for j in range(rotations):
+                        off = (pi * rotations + j) % n
+                        out.append((info, cont, pat, k, [SEPS[(3 * off + 1) % n]] + [SEPS[(off + 5 * i) % n] for i in range(k)]))
+                    pi += 1
+    return out
+
+
+def run_grid(ctx, drv, treq, rng, rotations, rotations_nofilter):
+    pool = MetaPool(drv, rng, 70)
+    plan = grid_plan(rotations, rotations_nofilter)
+    cases = []
+    trans = set()
+    for idx, (info, cont, pat, k, kinds) in enumerate(plan):
+        c = Case()
+        c.idx, c.part, c.info_only, c.cont = idx, 'grid', info, cont
+        if pat is None:
+            sel = [rng.randrange(len(pool.msgs)) for _ in range(k)]
+            c.keep = [True] * k
+        else:
+            f, t, fa = pool.filter_with_both(rng, any(pat), not all(pat))
+            sel = [rng.choice(t if keep else fa) for keep in pat]
+            c.fexpr, c.ftree = f.expr, f.tree
+            c.keep = list(pat)
+        assemble(rng, c, [pool.msgs[i] for i in sel], kinds)
+        cases.append(c)
+        st = c.keep + ['end']
+        for i in range(k):
+            trans.add((info, cont, pat is not None, st[i], kinds[i + 1], st[i + 1]))
+    # the product the docstring promises: every (status, separator, next status) in every mode
+    want = set()
+    for info in (False, True):
+        for cont in (False, True):
+            for a in (True, False):
+                for sep in SEPS:
+                    for b in (True, False, 'end'):
+                        want.add((info, cont, True, a, sep, b))
+            for sep in SEPS:
+                for b in (True, 'end'):
+                    want.add((info, cont, False, True, sep, b))
+    missing = want - trans
+    ctx.count('grid:transitions-covered', len(want & trans))
+    ctx.count('grid:transitions-wanted', len(want))
+    if missing:
+        raise core.MachineryError('the separator rotation leaves %d (status, separator, next status) combinations out, e.g. %r' % (
+            len(missing), sorted(missing, key=repr)[:3]))
+    run_cases(ctx, drv, treq, cases)
+
+
+# ---------------------------------------------------------------------------------------------
+# general filters over every metadata parameter name
+def run_filters(ctx, drv, treq, rng, all_forms, ncombo):
+    pool = MetaPool(drv, rng, 70)
+    plans = []
+    for a in pool.atoms:
+        if all_forms:
+            forms = list(F.SIMPLE_FORMS)
+        else:
+            forms = ['eq', 'ne', rng.choice(['lt', 'le', 'gt', 'ge']),
+                     rng.choice(['not', 'truth', 'in', 'notin', 'isnone', 'notnone', 'contains', 'qq'])]
+        plans += [(a, f) for f in forms]
+    plans += [(None, None)] * ncombo
+    cases = []
+    n = len(pool.msgs)
+    for idx, (atom, form) in enumerate(plans):
+        k = rng.randint(2, 5)
+        sel = [rng.randrange(n) for _ in range(k)]
+        if atom is not None:
+            # where the pool has them: a message in which the parameter is 0 / False / empty, and one in which it is not
+            vals = [m.lookup(*atom) for m in pool.metas]
+            fals = [i for i, v in enumerate(vals) if v is not None and v is not F.OUTSIDE and not v]
+            tru = [i for i, v in enumerate(vals) if v is not F.OUTSIDE and v]
+            if fals:
+                sel[rng.randrange(k)] = rng.choice(fals)
+            if tru:
+                free = [i for i in range(k) if not (fals and sel[i] in fals)] or list(range(k))
+                sel[rng.choice(free)] = rng.choice(tru)
+        metas = [pool.metas[i] for i in sel]
+        f = F.make(rng, metas, pool.atoms, atom=atom, form=form)
+        c = Case()
+        c.idx, c.part = idx, 'filters'
+        c.info_only = rng.random() < 0.5
+        c.cont = rng.random() < 0.3
+        c.fexpr, c.ftree = f.expr, f.tree
+        c.keep = [f.status(m) for m in metas]
+        assemble(rng, c, [pool.msgs[i] for i in sel], [rng.choice(SEPS) for _ in range(k + 1)])
+        cases.append(c)
+        for a in f.atoms:
+            ctx.count('filter-atom:' + ('bare' if a[0] is None else 'section-qualified'))
+        for fm in f.forms:
+            ctx.count('filter-form:' + fm)
+        for q in set(F.queries_of(f.tree)):
+            for m in metas:
+                v = m.query(q)
+                ctx.count('filter-query-value:' + ('outside' if v is F.OUTSIDE else 'none' if v is None else 'falsy' if not v else 'truthy'))
+    ctx.count('filter-atoms-enumerated', len(pool.atoms))
+    run_cases(ctx, drv, treq, cases)
 
 
 def run_loops(ctx, drv, treq, rng):
@@ -332,7 +566,9 @@ def run(ctx):
     ctx.rule = 'stream of at least 2 messages with an inner signature in a message, a partial signature in a separator, or a filter'
     treq = tables_io.group_request()
     quick = ctx.tier == 'quick'
-    run_generated(ctx, drv, treq, 1500 if quick else 30000, ctx.rng('main'))
+    run_generated(ctx, drv, treq, 800 if quick else 30000, ctx.rng('main'))
+    run_grid(ctx, drv, treq, ctx.rng("grid"), 4 if quick else 13, 3 if quick else 13)
+    run_filters(ctx, drv, treq, ctx.rng('filters'), not quick, 150 if quick else 3000)
     run_loops(ctx, drv, treq, ctx.rng('loops'))
     run_corpus(ctx, drv, ctx.rng('corpus'), 5 if quick else 40)
     run_split(ctx, drv, treq, ctx.rng('split'), 40 if quick else 400, 2 if quick else 8)
@@ -367,14 +603,23 @@ def replay(ctx, path):
             ctx.violation('oracle: split pieces differ', rep, signature={'kind': 'split'})
         return
     keep = rep.get('keep') or [True] * len(pieces)
-    exp = [p for p, k in zip(pieces, keep) if k]
+    oracle = F.OUTSIDE not in keep
+    exp, eout = [], 'done'
+    for p_, k in zip(pieces, keep):
+        if k == F.RAISES:
+            eout = 'err:other'
+            break
+        if k is True:
+            exp.append(p_)
     items, out = S.impl_scan(s, info_only=rep['info_only'], continue_on_error=rep.get('continue_on_error', False),
                              filter_expr=rep.get('filter_expr'), limit=len(pieces) + 3)
-    r = drv.batch([treq, S.scan_req(s, rep['info_only'], rep.get('continue_on_error', False), rep.get('filter_model'))])[1]
-    print('replay: expected', [len(x) for x in exp])
+    r = drv.batch([treq, S.scan_req(s, rep['info_only'], rep.get('continue_on_error', False), rep.get('filter_model'),
+                                    fexpr=rep.get('filter_tree'))])[1]
+    print('replay: filter', rep.get('filter_expr'), ' separators', rep.get('separators'))
+    print('        expected', eout, [len(x) for x in exp], '' if oracle else '(no oracle: the filter refers to what the metadata-only decode has not)')
     print('        implementation', out, [len(x) for x in items])
     print('        model', r['outcome'], r['items'])
-    if out != 'done' or items != exp:
+    if oracle and (out != eout or items != exp):
         ctx.violation('oracle: yielded pieces differ from the messages of the stream', rep, signature={'kind': 'oracle'})
     elif r['outcome'] != out or S.model_items(s, r) != items:
         ctx.violation('correspondence: model and implementation differ', rep, signature={'kind': 'correspondence'})
